@@ -215,8 +215,14 @@ pub fn check_case(case: &Case) -> Vec<(String, String)> {
         }
         // (4) marketing parameters are ignored when so configured, and forwarded iff both flags
         if no_marketing_in_rule {
-            let marketing: Vec<&str> = if case.marketing_set == 1 { vec!["utm_source=z", "ref=r"] } else { vec!["utm_source=z", "utm_medium=m%20x"] };
-            for subset in [vec![marketing[0]], vec![marketing[1], marketing[0]]] {
+            let marketing: Vec<&str> = if case.marketing_set == 1 { vec!["utm_source=z", "ref=r", "hsCta=t"] } else { vec!["utm_source=z", "utm_medium=m%20x"] };
+            let mut subsets = vec![vec![marketing[0]], vec![marketing[1], marketing[0]]];
+            if marketing.len() > 2 {
+                // a configured marketing parameter whose name has an upper-case letter
+                subsets.push(vec![marketing[2]]);
+                subsets.push(vec![marketing[2], marketing[1]]);
+            }
+            for subset in subsets {
                 let mut with: Vec<String> = case.params.clone();
                 for m in &subset {
                     with.insert(with.len() / 2, m.to_string());
